@@ -63,4 +63,39 @@ void h_INTEGER_decode_oer(void) {
 	if(sptr) { free(((INTEGER_t *)sptr)->buf); free(sptr); }
 }
 
+/* native vs wide over OER: NativeInteger_encode_oer produces exactly the bytes of the wide INTEGER with the same value, signed and unsigned */
+#include "ber_tlv_tag.c"
+#include "ber_tlv_length.c"
+#include "ber_decoder.c"
+#include "der_encoder.c"
+#include "asn_codecs_prim.c"
+#include "NativeInteger.c"
+#include "NativeInteger_oer.c"
+size_t vf_k;
+void h_NativeInteger_oer(void) {
+	VF_SCALAR(uint64_t, bits); VF_SCALAR(unsigned, wsel); VF_SCALAR(unsigned, uns);
+	__CPROVER_assume(wsel <= 4 && uns <= 1);
+	unsigned width = wsel == 0 ? 0 : wsel == 1 ? 1 : wsel == 2 ? 2 : wsel == 3 ? 4 : 8;
+	asn_INTEGER_specifics_t specs; memset(&specs, 0, sizeof(specs)); specs.field_width = sizeof(long); specs.field_unsigned = uns;
+	asn_TYPE_descriptor_t td = asn_DEF_NativeInteger; td.specifics = &specs;
+	asn_oer_constraints_t ct; ct.value.width = width; ct.value.positive = uns; ct.size = -1;
+	long native = (long)bits; int key = 0;
+	asn_enc_rval_t er = NativeInteger_encode_oer(&td, &ct, &native, vf_cb, &key);
+	VF_CANARY();
+	size_t need = uns ? ulen64(bits) : spec_int_len((int64_t)bits);
+	if(width && need > width) { __CPROVER_assert(er.encoded == -1, "C07: a value that does not fit the fixed width cannot be encoded"); return; }
+	size_t body = width ? width : need, hdr = width ? 0 : 1, i; int ok = 1;
+	__CPROVER_assert(er.encoded == (ssize_t)(hdr + body) && vf_cb_bytes == hdr + body, "C13/C02: same size as the wide representation (X.696 10)");
+	if(!width) __CPROVER_assert(vf_cb_log[0] == need, "C13/C02: fewest octets");
+	for(i = 0; i < 8; i++) if(i < body) {
+		size_t sh = body - 1 - i;
+		uint8_t expect = sh >= 8 ? ((!uns && (int64_t)bits < 0) ? 0xFF : 0) : (uint8_t)(bits >> (8 * sh));
+		if(vf_cb_log[hdr + i] != expect) ok = 0;
+	}
+	__CPROVER_assert(ok, "C13/C02: big-endian value octets, also for unsigned values of 2^63 and above");
+	long *back = 0;
+	asn_dec_rval_t rv = NativeInteger_decode_oer(0, &td, &ct, (void **)&back, vf_cb_log, vf_cb_bytes);
+	if(back) { if(rv.code == RC_OK) __CPROVER_assert(rv.consumed == vf_cb_bytes && (uint64_t)*back == bits, "C01: decode(encode(v)) == v"); free(back); }
+}
+
 VF_NATIVE_MAIN
